@@ -243,7 +243,12 @@ def translate(cell, mode, tok):
             if len(args) == 2 and args[1] == "p2":
                 steps.append("using:" + args[0])
             elif args[0] == "InBody" and "StartTag" in args[1]:
-                steps.append("as-br-start")
+                # "drop the attributes from the token and act as described in the next entry": the re-dispatched start tag is the
+                # end tag token with kind := StartTag AND attrs := empty
+                if re.search(r"Tag\{attrs:new\(\),kind:StartTag,\.\.", args[1]):
+                    steps.append("as-br-start")
+                else:
+                    steps.append("as-br-start-keeping-attributes")
             elif args[0] == "InBody" and "atom:img" in args[1]:
                 steps.append("as-img-start")
             else:
